@@ -98,6 +98,8 @@ define_ops! {
     op_xor = |a: U, b: U, sh: N| pair(|| shapes!(sh, a, b, ^, ^=), || core::ops::BitXor::bitxor(a, b));
     op_neg = |a: U, sh: N| pair(|| if sh == 0 { -a } else { -&a }, || Uint::wrapping_neg(a));
     op_not = |a: U, sh: N| pair(|| if sh == 0 { !a } else { !&a }, || Uint::not(a));
+    // through a NON-FUSED iterator that answers None once before item len/2: the items before the first None
+    sum_gap = |s: US| pair(|| (Gap::new(s.iter().copied(), s.len() / 2).sum::<Uint<B, L>>(), Gap::new(s.iter(), s.len() / 2).sum::<Uint<B, L>>(), Gap::new(s.iter().copied(), s.len() / 2).product::<Uint<B, L>>(), Gap::new(s.iter(), s.len() / 2).product::<Uint<B, L>>()), || { let h = &s[..s.len() / 2]; let a = h.iter().fold(Uint::<B, L>::ZERO, |x, y| Uint::wrapping_add(x, *y)); let p = h.iter().fold(Uint::<B, L>::ONE, |x, y| Uint::wrapping_mul(x, *y)); (a, a, p, p) });
     sum = |s: US, r: N| pair(|| match r { 0 => s.iter().copied().sum::<Uint<B, L>>(), 1 => s.iter().sum::<Uint<B, L>>(), 2 => NoHint(s.iter().copied()).sum::<Uint<B, L>>(), 3 => NoHint(s.iter()).sum::<Uint<B, L>>(), _ => s.iter().copied().filter(|_| true).sum::<Uint<B, L>>() }, || s.iter().fold(Uint::<B, L>::ZERO, |x, y| Uint::wrapping_add(x, *y)));
     product = |s: US, r: N| pair(|| match r { 0 => s.iter().copied().product::<Uint<B, L>>(), 1 => s.iter().product::<Uint<B, L>>(), 2 => NoHint(s.iter().copied()).product::<Uint<B, L>>(), 3 => NoHint(s.iter()).product::<Uint<B, L>>(), _ => s.iter().copied().filter(|_| true).product::<Uint<B, L>>() }, || if B == 0 { Uint::<B, L>::ZERO } else { s.iter().fold(Uint::<B, L>::from(1u64), |x, y| Uint::wrapping_mul(x, *y)) });
     // shifts by a Uint amount (4 shapes) and by each primitive amount type (t = type code, 4 shapes)
@@ -397,6 +399,7 @@ fn c20(r: &Runner) {
                     exec(l, bits, Op::sum, &[s.clone(), V::n(rf)]);
                     exec(l, bits, Op::product, &[s.clone(), V::n(rf)]);
                 }
+                exec(l, bits, Op::sum_gap, &[s.clone()]);
             }
             for rf in 0..5usize {
                 exec(l, bits, Op::sum, &[V::L(vec![]), V::n(rf)]);
